@@ -190,6 +190,7 @@ func (m *Machine) store(p *PtrV, v Value, g *Term, site ssa.Instruction) {
 		if c.IsFalse() {
 			continue
 		}
+		c = reduceGuard(c, a.Obj.born)
 		a.Obj.val = setPath(a.Obj.val, a.Path, func(old Value) Value { return mergeValue(c, v, old) })
 	}
 }
@@ -233,6 +234,22 @@ func (m *Machine) binop(op token.Token, a, b Value, ta, tb types.Type, g *Term, 
 			s2, c2 := m.concreteString(y)
 			if c1 && c2 {
 				return m.strConst(s1 + s2)
+			}
+			if x.cases != nil && y.cases != nil && len(x.cases)*len(y.cases) <= maxCases {
+				ok := true
+				cs := map[uint64]*Term{}
+				for _, a := range x.cases {
+					for _, b := range y.cases {
+						if int(a.k) >= len(m.strs) || int(b.k) >= len(m.strs) {
+							ok = false
+							continue
+						}
+						addCase(cs, uint64(m.intern(m.strs[a.k]+m.strs[b.k])), And(a.c, b.c))
+					}
+				}
+				if ok {
+					return mkCases(strW, cs)
+				}
 			}
 			return UF("strcat", BV(strW), x, y)
 		case token.LSS, token.GTR, token.LEQ, token.GEQ:
@@ -705,6 +722,7 @@ func (m *Machine) mapUpdate(mv *MapV, key, val Value, g *Term, site ssa.Instruct
 		if G.IsFalse() {
 			continue
 		}
+		G = reduceGuard(G, a.Obj.born)
 		c := a.Obj.val.(*MapContent)
 		nc := &MapContent{Entries: append([]MapEntry{}, c.Entries...)}
 		matched := TS.False
